@@ -3,6 +3,8 @@ from contracts import c05_fva as C5
 from contracts import c06_deletion as C6
 from pyvc.contract import chain_hooks
 from contracts import c05_fva_driver as CD
+from contracts import c14_fva_pool as CP
+from contracts import c14_essential as CE
 from props._generic import run_property, replay_with_driver
 
 LEVEL = "other"
@@ -12,7 +14,8 @@ KEYS = ["_fva_step", "_reaction_deletion", "_gene_deletion", "_get_growth"]
 def run(rep):
     run_property(rep, KEYS, hooks=chain_hooks(C5.HOOKS, C6.HOOKS_G, C6.HOOKS_GG),
                  more=[(["deletion._init_worker", "_reaction_deletion_worker", "_gene_deletion_worker"], C6.HOOKS_W),
-                       (["_init_worker"], CD.HOOKS)], explanation=(
+                       (["_init_worker"], CD.HOOKS), (["flux_variability_analysis@pool"], CP.HOOKS),
+                       (["find_essential_genes", "find_essential_reactions"], CE.HOOKS)], lemmas=CP.lemmas, explanation=(
         "Contracts cannot speak about schedules; they remove the need to: what is proved is that each task is a function of (worker "
         "state at task entry, item) and hands the worker back in the state it found it. _fva_step: the LP is solved with exactly the "
         "requested reaction's +forward -reverse added, the returned pair is (requested id, solver value), and every objective "
@@ -24,11 +27,40 @@ def run(rep):
         "worker's private model in the module global (and, for FVA, set the sweep's direction), and _reaction_deletion_worker / "
         "_gene_deletion_worker call the proved function on that model with exactly the task's ids and return its result unchanged. "
         "By induction over a worker's task sequence every task then sees the initial state; "
-        "results are keyed by id. The Pool itself, OS scheduling, chunking and completion order are outside any sequential contract "
+        "results are keyed by id. flux_variability_analysis is proved for ANY `processes` (an int, or None -> configuration.processes; "
+        "serial and PARALLEL branch, max / min model, all reactions / a list, with / without pfba_factor) against an ASSUMED contract of "
+        "the pool: imap_unordered(f, items, chunksize >= 1) yields the results f(x) of every item exactly once in an ARBITRARY order "
+        "- a ghost permutation of [0, n) given with its inverse (bijection axioms), standing for the number of workers, the chunking "
+        "and the completion order - each evaluated in a worker that ran initializer(*initargs) on its own copy of the prepared model "
+        "and then any number of earlier tasks. That earlier tasks do not matter is NOT assumed: it is the modifies clause and the last "
+        "clause of _fva_step's proved post-condition (every objective coefficient as at entry; lemma worker-state-invariant), and "
+        "_fva_step's precondition is an obligation in the worker state. Proved with a loop invariant over the ARRIVAL index: for "
+        "EVERY requested id the stored minimum / maximum is exactly the value _fva_step returns for that id in a worker whose "
+        "direction is min / max (the very post-condition of the serial cases of C05, hence independent of the permutation, of "
+        "`processes` and of the chunk size); nothing is stored under a key that is not a requested id; the pool is used exactly "
+        "when min(processes, n) > 1, one pool per sweep created with exactly (min(processes, n), initializer=_init_worker, "
+        "initargs=(model, loopless, 'min' / 'max')) AFTER the constraints were added and the objective zeroed, one imap_unordered "
+        "(_fva_step, the requested ids in request order, chunksize = n // processes, proved >= 1), and the pool is left again also "
+        "when a task raises; the parent's model is untouched by the sweeps. Glue lemmas over the post-conditions: serial == "
+        "parallel for every id, and the value for an id in a list request == the value in the one-element request [id], both under "
+        "the hypothesis that the same LP (coefficients, direction, prepared model) has the same optimal value (C04). "
+        "find_essential_genes / find_essential_reactions (threshold None / given, processes None / int): threshold None -> 0.01 x the "
+        "optimum of a first solve; ONE recorded call of single_gene_deletion / single_reaction_deletion with exactly (model, "
+        "method='fba', processes=<the caller's, unchanged>); the Series iterated is exactly D.loc[D['growth'].isna() | (D['growth'] < "
+        "threshold), :].ids (data flow through the opaque algebra); the returned set is exactly the entities named by its entries, "
+        "and - with the ASSUMED row-wise semantics of isna / < / | / .loc and the assumed frame shape (one row per entity, ids = "
+        "{id}, ids known to the model) - exactly the entities with a row whose growth is NaN or below the threshold (both inclusions). "
+        "The Pool itself, OS scheduling and pickling are outside any sequential contract "
         "language: bounded driver (processes 1-8, permutations, chunk sizes, seeded per-task delays injected into the workers, "
         "single-item calls, exact oracle; reproducibility of parallel sampling)."),
         trusted=["multiprocessing.Pool: each task runs once in a worker initialised on a private copy; imap_unordered yields every "
-                 "result once; map is ordered", "fork semantics", "C03 (undo actions restore the model)"])
+                 "result once in an arbitrary order (assumed contract Pool.imap_unordered, ghost permutation); map is ordered",
+                 "fork semantics (a worker's copy is isomorphic to the parent's model at pool creation)",
+                 "C03 (undo actions restore the model)", "the same LP has the same optimal value (hypothesis of the result lemmas; C04)",
+                 "pandas DataFrame.at[key, column] = value writes exactly that cell (recorded per column)",
+                 "single_gene_deletion / single_reaction_deletion as recorded calls returning a frame with one row per entity, ids = {id} "
+                 "of a gene / reaction of the model (assumed)", "row-wise semantics of Series.isna, <, |, DataFrame.loc[mask, :] "
+                 "(assumed contract pandas.rowwise)"])
 
 
 def replay(payload):
